@@ -19,14 +19,16 @@ RULE = ("argv tail run through both tools with random.seed(s) before each: every
         "assignments (random, all-true/false, one-flip neighbours of found models).  distinct = (argv, seed); trivial = no variables.")
 ASSUMPTIONS = ["vmon/tt.py: clause evaluator and bit-sliced pseudo-Boolean adder (self-checked against a naive evaluator)",
                "equal RNG state before both runs makes random families and graphs draw the same values"]
-REQUIRED = ["pairs_compared", "exact_pairs", "sampled_pairs", "pb_side_has_non_clause_constraints", "both_refused"]
+REQUIRED = ["pairs_compared", "exact_pairs", "sampled_pairs", "pb_side_has_non_clause_constraints", "both_refused", "cli_seed_pairs",
+            "graph_file_pairs"]
 CASE_TIMEOUT = {"quick": 300, "thorough": 1800}
 
 
-def run_tool(tool, tail, seed):
+def run_tool(tool, tail, seed, cli_seed=None):
     random.seed(seed)
+    pre = [] if cli_seed is None else ["--seed", str(cli_seed)]
     try:
-        return "ok", cli_formula(tool, [tool] + list(tail))
+        return "ok", cli_formula(tool, [tool] + pre + list(tail))
     except SystemExit as e:
         return "refused", "exit %r" % (e.code,)
     except Exception as e:          # noqa: BLE001
@@ -35,10 +37,10 @@ def run_tool(tool, tail, seed):
         return "exc", e
 
 
-def compare(ctx, sub, tail, seed, cap, nsamples):
-    label = " ".join(tail) + " [seed %d]" % seed
-    sa, A = run_tool("cnfgen", tail, seed)
-    sb, B = run_tool("pbgen", tail, seed)
+def compare(ctx, sub, tail, seed, cap, nsamples, cli_seed=None):
+    label = ("" if cli_seed is None else "--seed %d " % cli_seed) + " ".join(tail) + " [random.seed(%d) before]" % seed
+    sa, A = run_tool("cnfgen", tail, seed, cli_seed)
+    sb, B = run_tool("pbgen", tail, seed + (7 if cli_seed is not None else 0), cli_seed)
     if sa == "exc" or sb == "exc":
         # an escaping exception is C18's subject; here it only matters if the two tools differ
         if (sa == "exc") != (sb == "exc"):
@@ -81,8 +83,8 @@ def compare(ctx, sub, tail, seed, cap, nsamples):
                           % (label, tt.count(ma), tt.count(mb),
                              [("" if l > 0 else "~") + la[abs(l) - 1] for l in d["assignment"]],
                              "CNF" if d["in_first"] else "OPB"))
-        ctx.judged((tuple(tail), seed), nontrivial=na > 0,
-                   sample={"argv": tail, "seed": seed, "variables": na, "models": tt.count(ma)})
+        ctx.judged((tuple(tail), seed, cli_seed), nontrivial=na > 0,
+                   sample={"argv": tail, "seed": seed, "cli_seed": cli_seed, "variables": na, "models": tt.count(ma)})
         return
     # sampled comparison
     r = ctx.rng("c08", tuple(tail), seed)
@@ -138,6 +140,46 @@ def workload(tier, seed):
     step = 12
     for lo in range(0, n, step):
         yield "small", {"lo": lo, "hi": lo + step, "seeds": seeds}
+    nr = len(small()) - len(small(randomized=False))
+    for lo in range(0, nr, 25):
+        yield "cli_seed", {"lo": lo, "hi": lo + (8 if tier == "quick" else 25)}
+    yield "files", {}
     m = len(realistic())
     for lo in range(0, m, 2):
         yield "realistic", {"lo": lo, "hi": lo + 2, "seeds": seeds[:1] if tier == "quick" else seeds[:3]}
+
+
+def case_cli_seed(ctx, lo, hi):
+    """The two tools under the same --seed value (including 0), with different ambient RNG states."""
+    tt.selfcheck()
+    cap = 18 if ctx.tier == "quick" else 22
+    deterministic = {tuple(t) for _, t in small(randomized=False)}
+    rnd = [(sub, t) for sub, t in small() if tuple(t) not in deterministic]
+    for sub, tail in rnd[lo:hi]:
+        for cs in (0, 1, 5):
+            ctx.count("cli_seed_pairs")
+            compare(ctx, sub, tail, 1000 + cs, cap, 200, cli_seed=cs)
+
+
+def case_files(ctx):
+    """Graphs given as files: a vertex of degree 9-10 (parity constraints on many literals), named vertices."""
+    import os
+    import shutil
+    import tempfile
+    tt.selfcheck()
+    cap = 18 if ctx.tier == "quick" else 22
+    tmp = tempfile.mkdtemp(prefix="c08-")
+    try:
+        for d in (9, 10):
+            path = os.path.join(tmp, "star%d.kthlist" % d)
+            with open(path, "w") as f:
+                f.write("%d\n" % (d + 1))
+                f.write("1 : %s 0\n" % " ".join(str(v) for v in range(2, d + 2)))
+                for v in range(2, d + 2):
+                    f.write("%d : 1 0\n" % v)
+            for tail in (["tseitin", "first", path], ["tseitin", "one", path], ["tseitin", "zero", path], ["matching", path],
+                         ["tiling", path], ["ec", path] if d % 2 == 0 else ["kcolor", "1", path], ["domset", "1", path]):
+                ctx.count("graph_file_pairs")
+                compare(ctx, tail[0], tail, 1, cap, 300)
+    finally:
+        shutil.rmtree(tmp, ignore_errors=True)
